@@ -6,7 +6,40 @@ mod c10;
 mod c11;
 mod util;
 
-hcore::install_clock!();
+/// Interposed monotonic clock. Default (C08): real clock + `hcore::CLOCK_OFFSET_NS`, exactly as
+/// `hcore::install_clock!()`. After `clock::freeze()` (C10): FROZEN — `CLOCK_MONOTONIC` reads exactly
+/// `BASE_SECS` + the offset, so `Instant::now()` (and every futures-timer deadline) is a pure function
+/// of the op sequence and boundary cases (`deadline == now`) do not depend on scheduling.
+pub mod clock {
+    use std::sync::atomic::{AtomicBool, Ordering::SeqCst};
+    pub static FROZEN: AtomicBool = AtomicBool::new(false);
+    pub const BASE_SECS: i64 = 1_000_000;
+    pub fn freeze() {
+        FROZEN.store(true, SeqCst);
+    }
+    extern "C" {
+        fn __clock_gettime(clk: i32, ts: *mut [i64; 2]) -> i32;
+    }
+    #[no_mangle]
+    pub unsafe extern "C" fn clock_gettime(clk: i32, ts: *mut [i64; 2]) -> i32 {
+        if clk == 1 && FROZEN.load(SeqCst) {
+            let off = hcore::CLOCK_OFFSET_NS.load(SeqCst);
+            let t = &mut *ts;
+            t[0] = BASE_SECS + (off / 1_000_000_000) as i64;
+            t[1] = (off % 1_000_000_000) as i64;
+            return 0;
+        }
+        let r = __clock_gettime(clk, ts);
+        if r == 0 && clk == 1 {
+            let off = hcore::CLOCK_OFFSET_NS.load(SeqCst) as i64;
+            let t = &mut *ts;
+            let total = t[1] + off % 1_000_000_000;
+            t[0] += off / 1_000_000_000 + total / 1_000_000_000;
+            t[1] = total % 1_000_000_000;
+        }
+        r
+    }
+}
 
 fn main() {
     let args = hcore::Args::parse();
